@@ -134,3 +134,45 @@ def apply(tree, ren):
         elif isinstance(n, ast.alias) and n.name in ren:
             n.name = ren[n.name]
     return tree
+
+
+class _LowerIfExp(ast.NodeTransformer):
+    """`x = A if c else B` and `return A if c else B` at statement level are the if / else they abbreviate (same evaluation order:
+    the test, then the chosen arm): rewritten before any rule sees the tree, so that guards and flags are recognised in one form.
+    A no-op on the reference tree (it has no such statement)."""
+
+    def _lower(self, node, make):
+        v = node.value
+        if not isinstance(v, ast.IfExp):
+            return node
+        a = make(v.body)
+        b = make(v.orelse)
+        new = ast.If(test=v.test, body=[a], orelse=[b])
+        for x in (a, b, new):
+            ast.copy_location(x, node)
+        # nested conditional expressions in the arms
+        new.body = [self.visit(a)] if not isinstance(self.visit(a), list) else self.visit(a)
+        new.orelse = [self.visit(b)] if not isinstance(self.visit(b), list) else self.visit(b)
+        return new
+
+    def visit_Assign(self, node):
+        self.generic_visit(node)
+        if len(node.targets) == 1 and isinstance(node.targets[0], (ast.Name, ast.Attribute)) and isinstance(node.value, ast.IfExp):
+            import copy
+            return self._lower(node, lambda arm: ast.Assign(targets=[copy.deepcopy(node.targets[0])], value=arm, type_comment=None))
+        return node
+
+    def visit_Return(self, node):
+        self.generic_visit(node)
+        if isinstance(node.value, ast.IfExp):
+            return self._lower(node, lambda arm: ast.Return(value=arm))
+        return node
+
+    def visit_Lambda(self, node):
+        return node
+
+
+def lower_ifexp(tree):
+    _LowerIfExp().visit(tree)
+    ast.fix_missing_locations(tree)
+    return tree
